@@ -21,12 +21,12 @@ func init() {
 		Run:       runC15,
 		Technique: "static analysis: interval-partition interpretation of the size decision tree (exhaustive over its finite orderings), constant agreement between encoder and decoder, sibling agreement of the fixed-width codecs, provenance of the copied result (go/ssa)",
 		Explanation: "S2: WritableUintSize uses its argument only in comparisons with values that do not depend on it (constants, elements of a constant table), here or in private functions it is handed to; the function is evaluated at every value it compares with and its neighbours (exhaustive under that discipline) and must map [2^(7(k-1)),2^(7k)) to k for k=1..10. " +
-			"S3: the varint encoder/decoder (the functions holding the loops, also behind thin exported wrappers) agree on one group width g=7: payload mask 2^g-1, continuation flag 2^g, shift g (accumulator step or multiple of the loop variable), continuation tests v>=2^g / b<2^g (also as the bit test b&2^g) on the edges that emit/stop. " +
+			"S3: the varint encoder/decoder (the functions holding the loops, also behind thin exported wrappers) agree on one group width g=7: payload mask 2^g-1, continuation flag 2^g, shift g (accumulator step - in a register or in a field of a non-escaping local struct - or multiple of the loop variable), continuation tests v>=2^g / b<2^g (also as the bit test b&2^g) on the edges that emit/stop. " +
 			"S4: for N in 16,32,64 Marshal/Unmarshal/ObjectsWriter use binary.BigEndian Put/Uint/AppendUintN (or the sibling MarshalUintN), are guarded by and return N/8 at every exit, and the writer emits exactly its N/8-byte prefix of the scratch array. " +
 			"S5: WriteUint/WriteBytes/MarshalBytes encode the length through the one varint encoder followed by the body; the size functions are WritableUintSize(len)+len; the scratch array holds the longest varint; string forms go through the cast, a shared generic implementation, or the same formula. " +
 			"S6: every exit reachable with newBuf=true returns a fresh copy (container.SliceCopy, or make+copy), and SliceCopy's result is a freshly made slice. " +
 			"S7: every Marshal* store into the destination (also in a private function the buffer is handed to) is dominated by a length guard on the index/window and every copy has a destination of exactly len(src) elements or one the guards show to be no shorter, so a short buffer is an error and never a silent truncation. " +
-			"S8: the varint decoder rejects only on exhausted input or on a counter guard that cannot fire while groups an encoder can produce are still to be read (threshold reasoning on the induction variables). S9: a fixed-width coder refuses a buffer only when it is shorter than the N bytes it codes (a buffer of exactly N bytes - what the encoder produced - is accepted).",
+			"S8: the varint decoder rejects only on exhausted input (position == len(buf), an empty cursor, or a not-found count of a scan that ran to len(buf)) or on a counter guard that cannot fire while groups an encoder can produce are still to be read (threshold reasoning on the induction variables). S9: a fixed-width coder refuses a buffer only when it is shorter than the N bytes it codes (a buffer of exactly N bytes - what the encoder produced - is accepted).",
 		NotDecided: "the round-trip equality decode(encode(x))=x as a value statement; the shift/or arithmetic inside the loops.",
 	})
 	register(&Check{
@@ -36,11 +36,11 @@ func init() {
 		Technique: "static analysis: guard dominance for fixed-width reads, loop-index idiom, taint from wire lengths to arithmetic/slicing sinks with bound-by-guard sanitisation, exit classification (go/ssa)",
 		Explanation: "Applies to the exported Unmarshal functions and to the private functions they hand their input to. Guard facts are the branch conditions on the dominator chain, extended through tested flags/errors that were merged (single-exit style, inlined helpers) and through error-returning guard helpers; exits are the alternatives of the return statements. " +
 			"R1: every binary.BigEndian.UintN(x), constant index buf[c] and constant re-slicing of buf is dominated by facts implying that the bytes touched lie within len(buf). " +
-			"R2: a variable index buf[i] needs a lower bound >= 0 (loop variable from a constant, lengths) and facts implying i < len(buf) (i<len, or i!=len for a loop variable that provably never exceeds len). " +
+			"R2: a variable index buf[i] needs a lower bound >= 0 (loop variable from a constant, lengths) and facts implying i < len(buf) (i<len, or i!=len for a loop variable that provably never exceeds len); R1/R2 apply to every view of the buffer (windows, phi-merged windows, a shrinking cursor rest=rest[k:] that walks it), each access bounded by the length of the slice value it is made on. " +
 			"R3: a wire length (result of a varint/fixed decoder, also when kept in a local struct) reaches arithmetic, slice bounds, indices or make sizes only where guard facts bound it: an unsigned comparison against a len(buf)-derived operand, or sign test plus signed bound after the conversion; a window of t bytes is cut only after t was compared with what remains of the sliced value. " +
 			"R4: every failure exit reports 0 consumed bytes (or the count of the failing callee, 0 under its own R4). " +
 			"R5: a returned slice/string derives from a sub-slice of the input or from a copy (SliceCopy, make+copy) of one. " +
-			"R6: the consumed count of a success exit is a guarded constant, an expression the facts and loop invariants place in [0,len(buf)], a callee count, the end offset of a window cut from buf under R3, or an external decoder's count under an n>0 guard. R3 also: a byte of the input used as a number (a one-byte length header) is a wire length where it bounds a slice. R7: private functions reached from the decoders (error constructors, formatters) index fixed-size tables in range, by interval evaluation of the index (constants, + - / by constants, widening conversions, bits.Len as a monotone function, refined by dominating comparisons with constants).",
+			"R6: the consumed count of a success exit is a guarded constant, an expression the facts and loop invariants (loop variable <= len, len(cursor) <= len(buf) for a cursor only re-sliced without upper bound) place in [0,len(buf)], a callee count, the end offset of a window cut from buf under R3, or an external decoder's count under an n>0 guard. R3 also: a byte of the input used as a number (a one-byte length header) is a wire length where it bounds a slice. R7: private functions reached from the decoders (error constructors, formatters) index fixed-size tables in range, by interval evaluation of the index (constants, + - / by constants, widening conversions, bits.Len as a monotone function, refined by dominating comparisons with constants).",
 		NotDecided: "nothing material about panics on the idioms recognised; an unrecognised index/bound expression is reported as undecided (CHECK-ERROR), not guessed. 'Sub-range' is established as provenance, not arithmetic.",
 	})
 }
@@ -170,6 +170,10 @@ func binaryWidthB(call ssa.CallInstruction) int64 {
 // fixedWidthAccess checks R1/S7 for one function: BigEndian.(Put)UintN(x) with x = buf or a window of buf / of a fixed
 // array, buf[const], and re-slicing of buf with constant bounds.
 func (c *Ctx) fixedWidthAccess(rule string, fn *ssa.Function, buf ssa.Value) {
+	// the buffer, its windows and the cursors that walk it: every access is bounded by the length of the slice value it
+	// is made on
+	views := bufViewsG(fn, buf)
+	isView := func(v ssa.Value) bool { return same(v, buf) || views[ir.Resolve(v)] }
 	ir.Instrs(fn, func(in ssa.Instruction) {
 		switch x := in.(type) {
 		case *ssa.Call:
@@ -210,15 +214,15 @@ func (c *Ctx) fixedWidthAccess(rule string, fn *ssa.Function, buf ssa.Value) {
 			c.Decide(rule, fn, fmt.Sprintf("%d-byte access guarded by len>=%d", need, need), x, ok,
 				fmt.Sprintf("the %d-byte access is only guarded by len(buf) >= %d: a shorter input panics", need, lb))
 		case *ssa.IndexAddr:
-			if !same(x.X, buf) {
-				return
+			if !isView(x.X) || loopCarriedViewG(x.X) {
+				return // an access through a loop-carried cursor is at a variable position: loopIndexAccess
 			}
 			if k, isC := ir.ConstInt(x.Index); isC {
-				lb := lenLowerBound(x.Block(), buf)
+				lb := lenLowerBound(x.Block(), x.X)
 				c.Decide(rule, fn, fmt.Sprintf("buf[%d] guarded", k), x, lb > k, fmt.Sprintf("buf[%d] is only guarded by len(buf) >= %d", k, lb))
 			}
 		case *ssa.Slice:
-			if !same(x.X, buf) {
+			if !isView(x.X) {
 				return
 			}
 			var k int64 = -1
@@ -232,7 +236,7 @@ func (c *Ctx) fixedWidthAccess(rule string, fn *ssa.Function, buf ssa.Value) {
 				}
 			}
 			if k > 0 {
-				lb := lenLowerBound(x.Block(), buf)
+				lb := lenLowerBound(x.Block(), x.X)
 				c.Decide(rule, fn, fmt.Sprintf("buf[..%d] window guarded", k), x, lb >= k, fmt.Sprintf("the constant slice bound %d is only guarded by len(buf) >= %d", k, lb))
 			}
 		}
@@ -241,15 +245,18 @@ func (c *Ctx) fixedWidthAccess(rule string, fn *ssa.Function, buf ssa.Value) {
 
 // loopIndexAccess checks R2 for one function.
 func (c *Ctx) loopIndexAccess(rule string, fn *ssa.Function, buf ssa.Value) {
+	views := bufViewsG(fn, buf)
 	ir.Instrs(fn, func(in ssa.Instruction) {
 		x, ok := in.(*ssa.IndexAddr)
-		if !ok || !same(x.X, buf) {
+		if !ok || !(same(x.X, buf) || views[ir.Resolve(x.X)]) {
 			return
 		}
-		if _, isC := ir.ConstInt(x.Index); isC {
-			return
+		if _, isC := ir.ConstInt(x.Index); isC && !loopCarriedViewG(x.X) {
+			return // a constant position: fixedWidthAccess
 		}
-		within, undecided := indexWithinB(ctxAtB(x.Block()), x.Index, buf)
+		// the index is tested against the length of the slice value that is indexed: buf, a window of it, or the cursor
+		// that walks it (cursor[0] under len(cursor) != 0 is buf[i] under i != len(buf))
+		within, undecided := indexWithinB(ctxAtB(x.Block()), x.Index, x.X)
 		if undecided {
 			c.Undecided(rule, fn, "buf[i]", x, "the index is not built from a loop variable i=phi(c,i+1), lengths and constants")
 			return
@@ -945,6 +952,13 @@ func (c *Ctx) successCount(fn *ssa.Function, ep exitB, cx *linCtxB, cnt ssa.Valu
 		c.Decide(rule, fn, what, ret, within, detail)
 		return
 	}
+	// a count with subtracted lengths (len(buf) - len(rest) of a shrinking cursor): no constant lower bound exists, the
+	// facts and the cursor invariant len(rest) <= len(buf) must place it at or above 0 - and then also within len(buf)
+	if cx.impliesLE(linConstB(0), total) {
+		c.Decide(rule, fn, what, ret, cx.impliesLE(total, cx.lenOf(buf, 0)),
+			"the consumed count (input length minus what the cursor has left) is returned on a path where it is not bounded by len(buf)")
+		return
+	}
 	c.Undecided(rule, fn, what, ret, "unrecognised form of the consumed count: "+cnt.String())
 }
 
@@ -1206,6 +1220,11 @@ func shiftStepB(y ssa.Value) (step int64, at ssa.Instruction, ok bool) {
 		}
 	}
 	y = strip(y)
+	// the accumulator kept in a field of a local struct that had its address taken (a small value type with a
+	// pointer-receiver step method, inlined): every store in the loop adds the same constant to the field
+	if st, add, isMem := memAccumStepG(y); isMem {
+		return st, add, true
+	}
 	if p, _, st, isInd := inductionVar(y); isInd {
 		for _, e := range p.Edges {
 			if bo, isBin := e.(*ssa.BinOp); isBin {
@@ -1416,6 +1435,10 @@ func (c *Ctx) decoderRejections() {
 		for _, f := range cx.facts {
 			cm, isCmp := f.Cmp()
 			if !isCmp || !isIntTypeB(cm.X.Type()) {
+				continue
+			}
+			if cx.emptyCursorFactG(cm, buf) {
+				exhausted = true // the cursor that walks buf has nothing left
 				continue
 			}
 			op, x, y := cm.Op, cm.X, cm.Y
